@@ -70,6 +70,7 @@ def jobs(tier):
     for kname in b["keys"][:3 if tier == "quick" else None]:
         out.append({"name": "malformed/%s" % kname, "kind": "malformed", "key": kname, "tier": tier})
     out.append({"name": "stored", "kind": "stored", "tier": tier})
+    out.append({"name": "no-aes", "kind": "noaes", "tier": tier})
     return out
 
 
@@ -91,8 +92,67 @@ def run_job(job, ctx):
         _roundtrip(job, ctx)
     elif kind == "malformed":
         _malformed(job, ctx)
+    elif kind == "noaes":
+        _noaes(job, ctx)
     else:
         _stored(job, ctx)
+
+
+def _noaes(job, ctx):
+    """the optional AES back end reported absent: `best` records the concrete method xor and inverts exactly, `xor`
+    is unchanged, `aes` (encrypting, or decrypting a stored aes value) is an error rather than a value"""
+    import cincoconfig.encryption as enc_mod
+    from cincoconfig.encryption import SecureValue
+    only = job.get("only")
+    key = keys(job["tier"])["ramp"]
+    real = enc_mod.AES_AVAILABLE
+    aes_value = None
+    kf0, _ = _keyfile(ctx, key, "na0.key")
+    with kf0 as c:
+        aes_value = c.encrypt(b"made while aes was there", method="aes") if real else None
+    enc_mod.AES_AVAILABLE = False
+    try:
+        for n in (0, 1, 15, 16, 17, 32, 33, 48):
+            for pname, p in patterns(n).items():
+                for method in ("best", "xor", "aes"):
+                    ident = [n, pname, method]
+                    if only is not None and only != ident:
+                        continue
+                    kf, _ = _keyfile(ctx, key, "na.key")
+                    ctx.transitions += 1
+                    try:
+                        with kf as c:
+                            sv = c.encrypt(p, method=method)
+                            back = c.decrypt(sv)
+                        got = ("ok", sv, back)
+                    except Exception as exc:  # noqa
+                        got = ("raise", exc)
+                    ctx.case(("noaes", n, pname, method), "noaes:%s:%s" % (method, got[0]), True)
+                    case = _case(job, ident)
+                    if method == "aes":
+                        if got[0] == "ok":
+                            ctx.violation("C08|no-aes|aes|returned-a-value", "without the AES back end, encrypting with method aes returned %r" % (got[1],), case)
+                        continue
+                    if got[0] != "ok":
+                        ctx.violation("C08|no-aes|%s|raises" % method, "without the AES back end, method %s raised %r" % (method, got[1]), case)
+                    elif got[1].method != "xor":
+                        ctx.violation("C08|no-aes|%s|recorded-method" % method, "recorded method %r" % (got[1].method,), case)
+                    elif got[2] != p or got[1].ciphertext != _xor_ref(key, p):
+                        ctx.violation("C08|no-aes|%s|not-xor" % method, "the value is not the plaintext XOR the repeated key, or does not invert", case)
+        if aes_value is not None and (only is None or only == ["stored-aes"]):
+            kf, _ = _keyfile(ctx, key, "na2.key")
+            try:
+                with kf as c:
+                    got = ("ok", c.decrypt(aes_value))
+            except Exception as exc:  # noqa
+                got = ("raise", exc)
+            ctx.case(("noaes", "stored-aes"), "noaes:stored-aes:%s" % got[0], True)
+            if got[0] == "ok":
+                ctx.violation("C08|no-aes|stored-aes|returned-a-value", "a stored aes value was decrypted to %r without the AES back end" % (got[1],), _case(job, ["stored-aes"]))
+    finally:
+        enc_mod.AES_AVAILABLE = real
+    ctx.traces += 1
+    ctx.sample({"no_aes": True, "lengths": [0, 1, 15, 16, 17, 32, 33, 48]})
 
 
 def _case(job, only):
